@@ -543,6 +543,8 @@ def check_c12(pid, tier, seed, rep):
         for f, rec in parsed.items():
             if not f.endswith("_band.go"):
                 user |= set(rec.get("top_names") or [])
+            else:
+                user |= {fn["name"] for fn in rec["funcs"]}      # the generated functions are package-level names too
         e2e["packages"] += 1
         for f, rec in parsed.items():
             if not f.endswith("_band.go"):
